@@ -21,7 +21,7 @@ namespace GV.Levels
 theorem refines_table :
     Level.all.map (fun g' => (g', Level.all.filter (refines g' ·))) =
       [(.hh, [.hh]), (.wthh, [.hh, .wthh]), (.fg, [.hh, .fg]), (.bg, [.hh, .wthh, .fg, .bg]),
-       (.eg, [.hh, .fg, .eg]), (.ehe, [.ehe]), (.sn, [.ehe, .sn])] := by decide
+       (.eg, [.hh, .wthh, .fg, .bg, .eg]), (.ehe, [.ehe]), (.sn, [.ehe, .sn])] := by decide
 
 /-- C15.0b `refines` is a preorder containing the generating pairs ... -/
 theorem refines_preorder :
@@ -36,11 +36,13 @@ theorem refines_least (R : Level → Level → Prop) (hrefl : ∀ g, R g g)
     (a b : Level) (h : refines a b = true) : R a b :=
   refinesFuel_least R hrefl htrans hbase 7 a b h
 
-/-- C15.0d Not in the order: `eg ⋢ bg`, `bg ⋢ eg`, `ehe` is below nothing else, `fg ⋢ wthh`. -/
+/-- C15.0d Not in the order: `bg ⋢ eg`, `ehe` is below nothing else, `fg ⋢ wthh`.
+(`eg ⊑ bg` is a generating pair: partners are never self-sufficient children — V10 — so a
+couple lies inside one needs unit; see `bg_rest_together` / `fg_partner_same` in Props/C12.) -/
 theorem refines_excluded :
-    refines .eg .bg = false ∧ refines .bg .eg = false ∧ refines .fg .wthh = false ∧
-    (∀ g, refines .ehe g = (g == .ehe)) ∧ refines .eg .wthh = false :=
-  ⟨by decide, by decide, by decide, fun g => by cases g <;> decide, by decide⟩
+    refines .bg .eg = false ∧ refines .fg .wthh = false ∧
+    (∀ g, refines .ehe g = (g == .ehe)) :=
+  ⟨by decide, by decide, fun g => by cases g <;> decide⟩
 
 /-- C15.0e On a valid population (generating pairs assumed) every pair of the order holds. -/
 theorem refines_sem (P : Pop) (hP : P.WF) (g' g : Level) (h : refines g' g = true) :
@@ -48,7 +50,7 @@ theorem refines_sem (P : Pop) (hP : P.WF) (g' g : Level) (h : refines g' g = tru
 
 /-- a concrete valid population (4 persons: a couple, and two singles sharing a flat) -/
 example : Pop.WF ⟨4, fun
-    | .hh => [0, 0, 1, 1] | .wthh => [0, 0, 1, 2] | .fg => [0, 0, 1, 2] | .bg => [0, 1, 2, 3]
+    | .hh => [0, 0, 1, 1] | .wthh => [0, 0, 1, 2] | .fg => [0, 0, 1, 2] | .bg => [0, 0, 1, 2]
     | .eg => [0, 0, 1, 2] | .ehe => [0, 0, 1, 2] | .sn => [0, 0, 1, 2]⟩ :=
   Pop.valid_WF _ (by decide +kernel)
 
@@ -208,9 +210,9 @@ theorem checkSuffixes_example :
        ("bad_fg", .fg)]
     checkSuffixes graph 5 names = ["bad_bg", "bad_fg"] ∧
     checkSuffixesT graph names = ["bad_bg", "bad_fg"] ∧
-    constLevels graph 5 "ok_bg" = [.bg] ∧
+    constLevels graph 5 "ok_bg" = [.bg, .eg] ∧
     constLevels graph 5 "miete_hh" = [.hh, .wthh, .fg, .bg, .eg] ∧
-    constLevels graph 5 "bg_id" = [.bg] := by
+    constLevels graph 5 "bg_id" = [.bg, .eg] := by
   decide +kernel
 
 end GV.Levels
